@@ -21,7 +21,7 @@ NT_CUT = SPIN_CUT + ['allocate_long_table', '25extend_table_if_necessaryERPSt6at
 UNITS = {
   'seg': dict(wrapper='w_seg.cpp', mode='seq', selftest=True, cut=['13internal_growI']),
 }
-UNITS['fault'] = dict(wrapper='w_fault.cpp', mode='seq', exceptions=True, ptratomics=True, prune=True, cut=['14atomic_backoff5pauseEv'])
+UNITS['fault'] = dict(wrapper='w_fault.cpp', mode='seq', exceptions=True, ptratomics=True, prune=True, ptrcmp=True, cut=['14atomic_backoff5pauseEv'])
 KIND = {'gb': 0, 'pb': 1, 'gtal': 2}
 def unit(kinds, table, K=None):
     """thread unit for a tuple of operation kinds; table=False: scenarios stay below index 8 (NT_CUT), True: real table extension"""
@@ -70,9 +70,9 @@ HARNESSES += [
   grow('gtal_pb', ('gtal', 'pb'), False, 1, [sc2(1, 0, 4, PROBE=0), sc2(0, 0, 4)], tiers=('thorough',), timeout=3600),
 ]
 def fsc(pre, op1, a1, fk, k, op2='pb', a2=0, nfollow=2, cap=32, maxidx=12, **kw):
-    d = dict(PRE=pre, OP1=KIND[op1], ARG1=a1, FK=fk, FAULTK=k, OP2=KIND[op2], ARG2=a2, NFOLLOW=nfollow, CAP=cap, MAXIDX=maxidx, TABW=8); d.update(kw); return d
+    d = dict(PRE=pre, OP1=KIND[op1], ARG1=a1, FK=fk, FAULTK=k, OP2=KIND[op2], ARG2=a2, NFOLLOW=nfollow, CAP=cap, MAXIDX=maxidx, TABW=64); d.update(kw); return d
 HARNESSES += [
-  dict(name='fault_seq', unit='fault', harness='h_fault.c', defines={'memset': 'vp_memset'}, cbmc=['--unwind', '70', '--object-bits', '10'], timeout=900,
+  dict(name='fault_seq', unit='fault', harness='h_fault.c', defines={'memset': 'vp_memset'}, cbmc=['--unwind', '66', '--object-bits', '10'], timeout=200,
        native_cflags=['-fno-sanitize=null'],
        scenarios=[fsc(1, 'gb', 6, 1, k) for k in (1, 2)],
        desc='fault injection, single thread', bounds={}),
